@@ -1,6 +1,7 @@
 import EdpVerif.Drv.Common
 import EdpVerif.Impl.Rpc
 import EdpVerif.Spec.Rpc
+import EdpVerif.Impl.RpcTerm
 /-! Driver requests of property C17 (remote calls).
 
 * `c17trace <creation> <pids> <events>` — trace validation. `<events>` is the step trace recorded by the yield hook while
@@ -24,7 +25,21 @@ import EdpVerif.Spec.Rpc
   `remove` + `send` after its yields — is fired as late as the observations allow.
   `<pids>`: the reply pid the peer saw per call (`-` if it saw none). Result: `ok out=<results> fin=<n> proc=<tags>`.
 
-* `c17spec <kinds> <order> <ending> <results> <fin> <procSent> <procGot>` — the Spec's judgement of a scenario.
+      rs                             the harness saw that the receiver task had taken the connection out of the table
+      px                             the peer wrote something `route_message` ignores (no payload, `to_pid` not a pid)
+      st.<c>                         `Node::start` returned; EPMD assigned creation c (calls before it carry creation 1)
+
+* `c17mt …` — the same for a trace recorded on a multi-thread runtime: the events are in the order in which the tasks
+  logged them; each step happened between its task's previous event and the event that reports it, so the sizes
+  sampled at the points are not compared (only the final one), everything else is.
+* `c17wtrace …` / `c17wmt …` — the calls went through `rpc_call_with_timeout`: results are `reply:<tag>` (the unwrapped
+  value), `badshape` (`into_rex_response` refused the reply; the harness's malformed replies carry tags ending in 7).
+* `c17spec <kinds> <order> <ending> <results> <fin> <procSent> <procGot>` — the Spec's judgement of a scenario
+  (`c17wspec`: of wrapped calls).
+* `c17rex <term>` — `OwnedTerm::into_rex_response`; `c17wrap <ok|err> <term|class>` — what `rpc_call_with_timeout`
+  makes of the raw result.
+* `c17req <pid> <module> <function> <args>` — the frame `rpc_call_raw_with_timeout` writes (after the length prefix);
+  `c17erl <name> <pid> <params>` — the same for an `erlang_*` call.
 -/
 namespace Edp.Drv
 namespace C17
@@ -43,6 +58,7 @@ structure R where
   s : St
   q : List (Bool × Msg) := []
   owed : Bool := false
+  sizes : Bool := true
 
 def fire (r : R) (e : Step) : Except String R :=
   match step r.s e with
@@ -111,12 +127,12 @@ def callerSteps (r : R) (ev : List String) (pids : List String) : Except String 
   | ["ret", i, o, n] => do
     let i ← nat i
     let r ←
-      if o.startsWith "reply:" then do
+      if o.startsWith "reply:" ∨ o == "badshape" then do
         let r ← unlockSelf r i
         let r ← fire r (.recvReply i)
         match (r.s.callers i).pc with
         | .exiting (.reply _ b) =>
-          if s!"reply:{b}" ≠ o then throw s!"call {i} returned {o}, the model's channel holds reply:{b}"
+          if o ≠ "badshape" ∧ s!"reply:{b}" ≠ o then throw s!"call {i} returned {o}, the model's channel holds reply:{b}"
           fire r (.finish i)
         | _ => throw "no reply"
       else if o == "timeout" then fireAll r [.timeoutRemove i, .finish i]
@@ -172,15 +188,22 @@ def event (r : R) (pids : List String) (e : String) : Except String R :=
   | ["pp", a, b, c, t] => do
     pure { r with q := r.q ++ [(true, { node := 0, pid := ← pidOf a b c, body := ← nat t })] }
   | ["pc"] => .ok r
+  | ["px"] => .ok r
+  | ["st", c] => do fire r (.start (← nat c))
+  | ["rs"] => do
+    -- the receiver left its loop and removed the connection: whatever it owed is done, it stops
+    let r ← payDebt r
+    let r ← drainProc r
+    fire r (.rStop 0)
   | ["rt", _, n] => do
     -- the receiver is sequential: what it owed from the previous message is done
     let r ← payDebt r
     let r ← takeNext r
-    if r.s.pending.length ≠ (← nat n) then throw s!"table size {r.s.pending.length} in the model, {n} observed"
+    if r.sizes ∧ r.s.pending.length ≠ (← nat n) then throw s!"table size {r.s.pending.length} in the model, {n} observed"
     pure r
   | ["fin", n] => do
     let r ← payDebt r
-    let r ← drainProc r
+    let r ← if r.s.recv 0 = .stopped then pure r else drainProc r
     -- what the peer wrote but the receiver never took (the socket was closed first) was never received
     if r.s.pending.length ≠ (← nat n) then throw s!"table size {r.s.pending.length} in the model, {n} observed"
     pure r
@@ -188,7 +211,7 @@ def event (r : R) (pids : List String) (e : String) : Except String R :=
     -- a point of a call: first with the receiver's debt still open, then with the debt paid before the call's steps
     let late : Except String R := do
       let (r1, n) ← callerSteps r ev pids
-      if r1.s.pending.length ≠ n then throw s!"table size {r1.s.pending.length} in the model, {n} observed"
+      if r1.sizes ∧ r1.s.pending.length ≠ n then throw s!"table size {r1.s.pending.length} in the model, {n} observed"
       pure r1
     match late with
     | .ok r1 => .ok r1
@@ -196,7 +219,7 @@ def event (r : R) (pids : List String) (e : String) : Except String R :=
       if r.owed then do
         let r0 ← payDebt r
         let (r1, n) ← callerSteps r0 ev pids
-        if r1.s.pending.length ≠ n then throw s!"table size {r1.s.pending.length} in the model, {n} observed"
+        if r1.sizes ∧ r1.s.pending.length ≠ n then throw s!"table size {r1.s.pending.length} in the model, {n} observed"
         pure r1
       else .error why
 
@@ -209,37 +232,142 @@ def replay (r : R) (pids : List String) : List String → Nat → Except String 
 
 def listOf (s : String) : List String := if s == "-" then [] else s.splitOn ","
 
-def trace (creation pids events : String) : String :=
+/-- the harness's malformed replies carry tags that end in 7; every other reply is `{rex, tag}` -/
+def unwrapTag (b : Nat) : Option Nat := if b % 10 = 7 then none else some b
+
+def wrapText : Option Outcome → String
+  | some o => match wrapOutcome unwrapTag o with
+    | .value _ v => s!"reply:{v}"
+    | .badShape _ => "badshape"
+    | .err e => outText (some e)
+  | none => "running"
+
+def trace (sizes wrapped : Bool) (creation pids events : String) : String :=
   match nat creation with
   | .error e => "bad-op " ++ e
   | .ok c =>
     let pids := pids.splitOn ","
-    match replay { s := St.init { nextId := 1, nextSerial := 0, creation := c, poisoned := false } 0 } pids
+    match replay { s := St.init { nextId := 1, nextSerial := 0, creation := c, poisoned := false } 0, sizes := sizes } pids
         (events.splitOn ",") 0 with
     | .error why => why.replace "\n" " "
     | .ok r =>
-      let outs := (List.range pids.length).map fun i => outText (r.s.callers i).out
+      let outs := (List.range pids.length).map fun i => (if wrapped then wrapText else outText) (r.s.callers i).out
       let proc := r.s.procLog.map fun (_, m) => match r.s.inbox[m]? with
         | some msg => toString msg.body
         | none => "?"
       s!"ok out={";".intercalate outs} fin={r.s.pending.length} proc={if proc.isEmpty then "-" else ",".intercalate proc}"
 
-def spec (kinds outs fin sent got : String) : String :=
+def spec (wrapped : Bool) (kinds outs fin sent got : String) : String :=
   let ks := (listOf kinds).map Spec.Rpc.Kind.ofCode
   if ks.any Option.isNone then "bad-op kind" else
   let ks := ks.filterMap id
   let os := (outs.splitOn ";").map Spec.Rpc.Out.ofText
   let nats := fun (s : String) => (listOf s).map String.toNat!
-  match Spec.Rpc.judge ks os fin.toNat! (nats sent) (nats got) with
+  match Spec.Rpc.judge wrapped ks os fin.toNat! (nats sent) (nats got) with
   | none => "ok"
   | some why => why
 
 end C17
 
+def C17.runE (r : Except String String) : String :=
+  match r with
+  | .ok s => s
+  | .error e => "bad-op " ++ e
+
+
+/-- the independent reading of a request frame (after the length prefix): pass-through marker, control term, payload
+term (`Spec.parseTop`), compared as values with what the `rex` protocol wants for this call -/
+def C17.reqSpec (frame : Bytes) (pid : Term) (m f : Bytes) (args : List Term) : String :=
+  let a := fun (s : String) => Term.atom (s.toList.map fun c => UInt8.ofNat c.toNat)
+  match frame with
+  | 112 :: rest =>
+    match Spec.parseTop {} rest with
+    | some (ctl, rest2) =>
+      match Spec.parseTop {} rest2 with
+      | some (pl, []) =>
+        if ctl != (Term.tuple [.int 6, pid, .atom [], a "rex"]).den then "FAIL the control message is not {6, FromPid, '', rex}"
+        else if pl != (Term.tuple [pid, .tuple [a "call", .atom m, .atom f, .list args, a "user"]]).den then
+          "FAIL the payload is not {FromPid, {call, Module, Function, Args, user}} for this call"
+        else "ok"
+      | some (_, _) => "FAIL bytes after the payload"
+      | none => "FAIL the payload is not a term"
+    | none => "FAIL the control message is not a term"
+  | _ => "FAIL not a pass-through frame"
+
+def C17.textParam (t : Term) : Spec.Rpc.Param Term :=
+  match t with
+  | .bin b =>
+    match String.fromUTF8? (ByteArray.mk b.toArray) with
+    | some s => .text b (s.toList.map Char.toNat)
+    | none => .other t
+  | _ => .other t
+
 /-- driver requests of property C17 -/
 def handleC17 : List String → Option String
-  | ["c17trace", creation, pids, events] => some (C17.trace creation pids events)
-  | ["c17spec", kinds, _order, _ending, outs, fin, sent, got] => some (C17.spec kinds outs fin sent got)
+  | ["c17trace", creation, pids, events] => some (C17.trace true false creation pids events)
+  | ["c17mt", creation, pids, events] => some (C17.trace false false creation pids events)
+  | ["c17wtrace", creation, pids, events] => some (C17.trace true true creation pids events)
+  | ["c17wmt", creation, pids, events] => some (C17.trace false true creation pids events)
+  | ["c17spec", kinds, _order, _ending, outs, fin, sent, got] => some (C17.spec false kinds outs fin sent got)
+  | ["c17wspec", kinds, _order, _ending, outs, fin, sent, got] => some (C17.spec true kinds outs fin sent got)
+  | ["c17rex", t] => some <| C17.runE do
+    let t ← getTerm t
+    match Impl.RpcTerm.intoRexResponse t with
+    | some v => pure ("ok " ++ v.text)
+    | none => pure "err"
+  | ["c17wrap", "ok", t] => some <| C17.runE do
+    let t ← getTerm t
+    match Impl.RpcTerm.wrapResult (.reply t) with
+    | .reply v => pure ("ok " ++ v.text)
+    | .err e => pure ("err:" ++ e)
+  | ["c17rawbody", t] => some <| C17.runE do
+    let t ← getTerm t
+    pure ("ok " ++ t.text)
+  | ["c17wrap", "err", e] => some <|
+    match Impl.RpcTerm.wrapResult (.err e) with
+    | .reply v => "ok " ++ v.text
+    | .err e => "err:" ++ e
+  | ["c17req", pid, m, f, args] => some <| C17.runE do
+    let p ← getTerm pid
+    let m ← getHex m
+    let f ← getHex f
+    let a ← getTerm args
+    match p, a with
+    | .pid p, .list a =>
+      match Impl.RpcTerm.requestFrame p m f a with
+      | .ok b => pure (hexOf (b.drop 4))
+      | .error _ => pure "err"
+    | _, _ => throw "c17req wants a pid and a list"
+  | ["c17reqspec", frame, pid, m, f, args] => some <| C17.runE do
+    let b ← getHex frame
+    let p ← getTerm pid
+    let m ← getHex m
+    let f ← getHex f
+    match ← getTerm args with
+    | .list a => pure (C17.reqSpec b p m f a)
+    | _ => throw "c17reqspec wants a list"
+  | ["c17erlspec", frame, name, pid, params] => some <| C17.runE do
+    let b ← getHex frame
+    let p ← getTerm pid
+    match ← getTerm params with
+    | .list ps =>
+      match Spec.Rpc.erlangCall Term.atom (fun cs => Term.list (cs.map fun c => Term.int (Int.ofNat c))) name (ps.map C17.textParam) with
+      | some (f, args) =>
+        pure (C17.reqSpec b p ("erlang".toList.map fun c => UInt8.ofNat c.toNat) (f.toList.map fun c => UInt8.ofNat c.toNat) args)
+      | none => pure "FAIL no such BIF"
+    | _ => throw "c17erlspec wants a list"
+  | ["c17erl", name, pid, params] => some <| C17.runE do
+    let p ← getTerm pid
+    let a ← getTerm params
+    match p, a with
+    | .pid p, .list a =>
+      match Impl.RpcTerm.erlangTarget name, Impl.RpcTerm.erlangArgs name a with
+      | some (m, f), some args =>
+        match Impl.RpcTerm.requestFrame p m f args with
+        | .ok b => pure (hexOf (b.drop 4))
+        | .error _ => pure "err"
+      | _, _ => pure "no-such-call"
+    | _, _ => throw "c17erl wants a pid and a list"
   | _ => none
 
 end Edp.Drv
